@@ -4,6 +4,8 @@ import Driver.PumpDrv
 import Driver.E2E
 import Driver.PathMap
 import Driver.Robotics
+import Driver.Reader
+import Driver.IoFault
 /-!
 `modeldrv`: one request per line on stdin (`<area> <op> <args…>`), one answer per line on stdout.
 -/
@@ -17,6 +19,8 @@ def dispatch (line : String) : String :=
   | "e2e" :: rest => E2E.handle rest
   | "pathmap" :: rest => PathMap.handle rest
   | "robotics" :: rest => Robotics.handle rest
+  | "reader" :: rest => Reader.handle rest
+  | "iofault" :: rest => IoFault.handle rest
   | _ => "bad-op"
 
 partial def loop (h : IO.FS.Stream) (out : IO.FS.Stream) : IO Unit := do
